@@ -46,6 +46,10 @@ var c06Probes = [][]byte{
 	[]byte("{\"log\":{\"pages\":[{\"id\":1,"), []byte("{\"a\":{\"b\":{\"c\":[[[{\"d\":"), []byte("{\"type\":\"Point\",\"coordinates\":[102.0,0.5]}"),
 	[]byte("{\"log\":{\"version\":\"1.2\",\"entries\":[]}}"), []byte("{\"asset\":{\"version\":\"2.0\"},\"scenes\":[]}"),
 	[]byte("a,b\tc\n1\np,q,r,s\n"), []byte("k,v\n1,2\n3,4\n"), []byte("k\tv\n1\t2\n3\t4\n"),
+	// verdicts that depend on every flag of the recycled scanner state being reset: a lone opener (not JSON when the
+	// whole input was examined), openers behind white space, a stream whose last line is a lone opener, complete
+	// documents in between (they leave `complete` / `firstToken` / the path behind)
+	[]byte("{"), []byte("["), []byte(" \n{"), []byte("{\"a\":1}\n{\n"), []byte("{}"), []byte("[1,2,3]"), []byte("1"), []byte("\"s\""), []byte("[\n"),
 }
 var c06Names = []string{"application/x-verif-a", "application/x-verif-a-alias", "text/x-verif-b2", "application/x-verif-d-alias", "a/e3", "a/f1", "application/zip", "text/plain", "application/json", "nope/nope"}
 
